@@ -47,6 +47,11 @@ sequences that run first:
  * make_remote_dir_robustly does not delete a file in the way (full upload);
  * removed symlinks not deleted;
  * the first modified entry skipped;
+ * modified entries uploaded to their OLD path (`upload_file(change.path[0], change.path[1])`): differs from
+   the new path only when an ancestor directory is renamed in the same delta - caught on every seed by the
+   pinned sequences dir-rename-edit-below, dir-rename-chmod-below-depth2, dir-swap-edit-below,
+   dir-swap-chmod-below, dir-replace-edit-below and by the generator ops dir+edit / dirswap+edit /
+   dirreplace+edit (NoSuchFile variant and the silent variant with a spurious old-path file);
  * harmless: finish_deletions rewritten with a pop() loop - stays clean.
 """
 import io
@@ -61,7 +66,7 @@ THEOREMS = [
     "moves_sequential_eq_simultaneous", "rename_exec_independent", "upload_renames_reach_tree_partial",
     "nested_rename_witness", "nested_rename_second_witness", "children_first_fixes_witnesses",
     "reach_core", "rename_into_new_dir_witness", "symlink_families_witness", "renamed_as_file_witness",
-    "full_upload_keeps_stale_witness", "ignored_rename_boundary_witness", "ignored_never_addressed",
+    "kind_change_below_renamed_dir_witness", "deferred_deletion_witnesses", "full_upload_keeps_stale_witness", "ignored_rename_boundary_witness", "ignored_never_addressed",
 ]
 RULE = ("case = one upload: (remote listing before, tree delta the uploader computes, new tree, ignore list, mode "
         "incremental | full | overwrite-jump); sequences of 4-7 commits of 1-3 random edits over 5 names; "
@@ -80,6 +85,8 @@ FAMILIES = {
     "rename-across-ignore-boundary-nosuchfile": "a rename with exactly one side ignored addresses a remote path that was never uploaded: NoSuchFile",
     "rename-across-ignore-boundary-moves-ignored-content": "a directory renamed from an ignored to a non-ignored path takes the ignored remote content below it along: the remote gains paths the tree does not have",
     "kind-change-below-renamed-directory-nosuchfile": "an entry changes kind while an ancestor directory is renamed in the same delta: the old object is deleted at its OLD path after the renames are finished: NoSuchFile",
+    "deferred-deletion-below-renamed-directory-nosuchfile": "a directory is removed below a directory that is renamed in the same delta; its deferred rmdir runs at the OLD path after the renames are finished: NoSuchFile",
+    "rename-onto-deleted-directory-directorynotempty": "a directory takes the path of a directory removed in the same delta; the deferred rmdir of the removed one then hits the new occupant: DirectoryNotEmpty",
     "rename-onto-deleted-directory-readerror": "an entry takes the path of a directory removed in the same delta; the deferred rmdir runs after finish_renames: ReadError",
     "delete-directory-with-ignored-content-directorynotempty": "a removed directory still holds ignored remote content: the deferred rmdir raises DirectoryNotEmpty",
     "full-upload-keeps-stale-paths": "upload --full onto an existing remote never deletes paths that left the tree",
@@ -499,6 +506,10 @@ def classify(mode, err, delta, ents, before, names, got, exp, from_kinds):
         removed_dirs = {c.path[0] for c in delta.removed if c.kind[0] == "directory" and not is_ign(names, c.path[0])}
         if err == "ReadError" and any(n in removed_dirs for _, n in ren):
             return "rename-onto-deleted-directory-readerror"
+        if err == "DirectoryNotEmpty" and any(n in removed_dirs and tree.get(n, ("?",))[0] == "d" for _, n in ren):
+            return "rename-onto-deleted-directory-directorynotempty"
+        if err == "NoSuchFile" and any(d.startswith(o + "/") for d in removed_dirs for o, _ in ren):
+            return "deferred-deletion-below-renamed-directory-nosuchfile"
         if err == "DirectoryNotEmpty" and any(is_ign(names, p) and any(p.startswith(d + "/") for d in removed_dirs)
                                               for p in before):
             return "delete-directory-with-ignored-content-directorynotempty"
@@ -663,6 +674,10 @@ SCRIPTS = {
                                [("mv", "d", "e"), ("mv", "b", "d"), ("file", "e/a", "11")]],
     "dir-rename-kind-change-below": [[("mkdir", "d"), ("file", "d/a", "1")],
                                      [("mv", "d", "e"), ("rm!", "e/a"), ("ln", "e/a", "t1")]],
+    "delete-below-renamed-dir": [[("mkdir", "a"), ("mkdir", "a/d"), ("file", "a/d/b", "1"), ("file", "a/f", "2")],
+                                 [("rm", "a/d"), ("mv", "a", "e")]],
+    "dir-onto-deleted-dir": [[("mkdir", "f"), ("mkdir", "f/a"), ("file", "f/a/a", "1"), ("mkdir", "f/d"), ("file", "f/d/b", "2")],
+                             [("mv", "f/a/a", "f/e"), ("rm", "f/a"), ("mv", "f/d", "f/a")]],
     "rename-modified": [[("file", "a", "1"), ("mkdir", "d")], [("file", "a", "11"), ("mv", "a", "d/b")]],
 }
 
